@@ -316,7 +316,13 @@ def record_item(unit, item, rel, pc, kind, obligation=None, contract=None):
 
 def emit_fn(unit, item, rel, fnargs, subs, owner, canary, indent=""):
     pc = rsx.Pieces(item.src, item.start, item.end)
-    text = apply_fn_subs(unit, item, pc, subs, fnargs, owner, canary)
+    try:
+        text = apply_fn_subs(unit, item, pc, subs, fnargs, owner, canary)
+    except ExtractError as e:
+        # an extraction rule refused on THIS function (an anchor or an R-XEXPR text is gone): the function is left out and reported
+        # undecided (its twins are run); the rest of the unit is still verified -- unless it calls the function, which rustc reports
+        unit.skipped.append((f"{unit.name}::{owner + '::' if owner else ''}{item.name}", "extraction refused: " + str(e)))
+        return
     if rel in unit.lift_meta:
         lm = unit.lift_meta[rel]
         pc.rules.append({"rule": "R-LIFT", "line": lm["lines"][0], "note": "statement range %s:%d-%d (sha256/16 %s) lifted verbatim into a method whose "
